@@ -217,6 +217,93 @@ func (c *checker) allQER(thorough bool) {
 			s.seid = v
 			c.qer(s, nil, "seid")
 		}
+		if thorough {
+			// every order of all eight children
+			for _, o := range orders(len(full.children()), 8) {
+				c.qer(full, o, "")
+			}
+			// every presence subset under three more orders (reversed, rotated, interleaved)
+			for m := 0; m < 128; m++ {
+				s := baseQER(update)
+				if m&1 == 0 {
+					s.corr = nil
+				}
+				if m&2 == 0 {
+					s.gate = nil
+				}
+				if m&4 == 0 {
+					s.mbr = nil
+				}
+				if m&8 == 0 {
+					s.gbr = nil
+				}
+				if m&16 == 0 {
+					s.qfi = nil
+				}
+				if m&32 == 0 {
+					s.rqi = nil
+				}
+				if m&64 == 0 {
+					s.ppi = nil
+				}
+				n := len(s.children())
+				rev, rot := make([]int, n), make([]int, n)
+				for i := 0; i < n; i++ {
+					rev[i], rot[i] = n-1-i, (i+1)%n
+				}
+				c.qer(s, rev, "")
+				c.qer(s, rot, "")
+			}
+			// bit rates: 2^k-1, 2^k, 2^k+1 for every k up to 40 against a fixed partner on either side, and the
+			// full product of the 24 byte-boundary values
+			var wide, bnd []uint64
+			for k := uint(0); k <= 40; k++ {
+				for _, d := range []int64{-1, 0, 1} {
+					v := int64(1)<<k + d
+					if v >= 0 && uint64(v) < 1<<40 {
+						wide = append(wide, uint64(v))
+					}
+				}
+			}
+			for k := uint(0); k <= 40; k += 8 {
+				for _, d := range []int64{-1, 0, 1, 0x55} {
+					v := int64(1)<<k + d
+					if v >= 0 && uint64(v) < 1<<40 {
+						bnd = append(bnd, uint64(v))
+					}
+				}
+			}
+			for _, v := range wide {
+				for _, side := range []int{0, 1} {
+					p := [2]uint64{0x0102030405, 0x0102030405}
+					p[side] = v
+					s := baseQER(update)
+					s.mbr = &[2]uint64{p[0], p[1]}
+					c.qer(s, nil, "mbr-wide")
+					s = baseQER(update)
+					s.gbr = &[2]uint64{p[0], p[1]}
+					c.qer(s, nil, "gbr-wide")
+				}
+			}
+			for _, ul := range bnd {
+				for _, dl := range bnd {
+					s := baseQER(update)
+					s.mbr = &[2]uint64{ul, dl}
+					s.gbr = &[2]uint64{dl ^ 1, ul ^ 1}
+					c.qer(s, nil, "mbr-gbr-product")
+				}
+			}
+			// QFI x RQI x PPI x gate
+			for q := 0; q < 64; q++ {
+				for r := 0; r < 2; r++ {
+					for pp := 0; pp < 8; pp++ {
+						s := baseQER(update)
+						s.qfi, s.rqi, s.ppi, s.gate = u8p(uint8(q)), u8p(uint8(r)), u8p(uint8(pp)), u8p(uint8((q+pp)&15))
+						c.qer(s, nil, "qfi-rqi-ppi-gate")
+					}
+				}
+			}
+		}
 	}
 }
 
@@ -412,6 +499,70 @@ func (c *checker) allURR(thorough bool) {
 			s := baseURR(update)
 			s.seid = v
 			c.urr(s, nil, "seid")
+		}
+		if thorough {
+			// every subset of the first trigger octet (PERIO excluded), every pair of bits over all three octets
+			for w := 0; w < 256; w += 2 {
+				s := baseURR(update)
+				s.trig = []byte{byte(w), 0, 0}
+				c.urr(s, nil, "trigger-octet1-subset")
+				s.trig = []byte{byte(w), 0}
+				c.urr(s, nil, "trigger-octet1-subset-2octets")
+			}
+			for a := 1; a < 24; a++ {
+				for b := a + 1; b < 24; b++ {
+					w := uint32(1)<<a | uint32(1)<<b
+					s := baseURR(update)
+					s.trig = []byte{byte(w), byte(w >> 8), byte(w >> 16)}
+					c.urr(s, nil, "trigger-bit-pair")
+				}
+			}
+			// measurement information: all 256 octets; method x measurement information
+			for v := 0; v < 256; v++ {
+				for mth := 0; mth < 8; mth += 7 {
+					s := baseURR(update)
+					s.minfo, s.method = u8p(uint8(v)), u8p(uint8(mth))
+					c.urr(s, nil, "minfo-octet")
+				}
+			}
+			// thresholds and quotas together: every flag subset pair x independent 64-bit boundary values
+			wide := []uint64{0, 1, 0xff, 0x100, 0xffff, 0x10000, 0xffffffff, 0x100000000, 0x7fffffffffffffff, 0x8000000000000000, 0xfffffffffffffffe, 0xffffffffffffffff}
+			for ft := 1; ft < 8; ft++ {
+				for fq := 1; fq < 8; fq++ {
+					for i, v := range wide {
+						s := baseURR(update)
+						s.volth = &volSpec{uint8(ft), v, wide[(i+3)%len(wide)], wide[(i+7)%len(wide)]}
+						s.volqu = &volSpec{uint8(fq), wide[(i+5)%len(wide)], v, wide[(i+1)%len(wide)]}
+						c.urr(s, nil, "threshold+quota")
+					}
+				}
+			}
+			// presence subsets under reversed and rotated child order
+			for m := 0; m < 32; m++ {
+				s := baseURR(update)
+				if m&1 == 0 {
+					s.method = nil
+				}
+				if m&2 == 0 {
+					s.trig = nil
+				}
+				if m&4 == 0 {
+					s.minfo = nil
+				}
+				if m&8 == 0 {
+					s.volth = nil
+				}
+				if m&16 == 0 {
+					s.volqu = nil
+				}
+				n := len(s.children())
+				rev, rot := make([]int, n), make([]int, n)
+				for i := 0; i < n; i++ {
+					rev[i], rot[i] = n-1-i, (i+1)%n
+				}
+				c.urr(s, rev, "")
+				c.urr(s, rot, "")
+			}
 		}
 	}
 }
@@ -666,7 +817,7 @@ func RunC03(tier string) {
 	run.Set("evaluations", c.evals)
 	run.Set("distinct_nontrivial", c.nontr.Len())
 	run.Set("order_variants", c.orderN)
-	run.Set("rule", "Create/Update QER, URR, BAR grouped IEs: every presence subset of the optional children, child orders (all permutations up to 5/6 children, reversal + adjacent transpositions beyond), all 16 gate values, MBR/GBR over all UL != DL pairs of {0,1,255,256,2^32-1,2^32,2^40-1,0x0102030405}, QFI 0..63, every reporting-trigger bit in 2- and 3-octet form, every threshold/quota flag subset x 64-bit boundary values, BAR delay/count/id 0..255; periodic registration: Create URR with PERIO x every other single trigger bit x 2/3-octet form (PERIO alone and no trigger under all 24 orders of the four child IEs), tick of its period and of another period read from the simulated kernel's GET_MULTI_REPORTS requests, removal, and the four Update URR transitions of the PERIO bit; every evaluated shape is distinct")
+	run.Set("rule", "Create/Update QER, URR, BAR grouped IEs: every presence subset of the optional children, child orders (all permutations up to 5/6 children, reversal + adjacent transpositions beyond), all 16 gate values, MBR/GBR over all UL != DL pairs of {0,1,255,256,2^32-1,2^32,2^40-1,0x0102030405}, QFI 0..63, every reporting-trigger bit in 2- and 3-octet form, every threshold/quota flag subset x 64-bit boundary values, BAR delay/count/id 0..255; thorough adds all 40320 orders of the eight QER children, 2^k-1/2^k/2^k+1 bit rates for every k<=40 and a 24x24 MBR x GBR product, QFI x RQI x PPI, every subset of the first trigger octet and every pair of trigger bits, all 256 measurement-information octets, threshold x quota flag-subset pairs over a 12-value 64-bit set; periodic registration: Create URR with PERIO x every other single trigger bit x 2/3-octet form (PERIO alone and no trigger under all 24 orders of the four child IEs), tick of its period and of another period read from the simulated kernel's GET_MULTI_REPORTS requests, removal, and the four Update URR transitions of the PERIO bit; every evaluated shape is distinct")
 	run.Set("exhaustive", true)
 	run.Set("samples", c.smp.List())
 	run.Set("bound", "value alphabets are boundary sets; the netlink measurement-period attribute is not compared (not in the property's list)")
